@@ -178,6 +178,29 @@ def ob_watermarks(run, oid):
                                 "%s|value|%s" % (fld, fshort(fn)), "first_unpruned_slot advances one slot at a time (next())", sp, {"value": mir.show(t)})
 
 
+def ob_prune_after_decision(run, oid):
+    prog = run.program("lib")
+    o = run.ob(oid, "the tracker prunes after every step that can decide slots: each handle_implicitly_finalized in add_parent and every handle_finalized_block is always followed by prune()",
+               "a late parent link can close the gap between two directly finalized blocks: without the prune the watermark stays behind a fully decided prefix, whose votes and certificates "
+               "are then still accepted and retained", floor=3)
+    b = prog.body(FT + "::add_parent")
+    if b is None:
+        o.missing("FinalityTracker::add_parent")
+    else:
+        hs = b.calls_to(FT + "::handle_implicitly_finalized")
+        ps = [c.bb for c in b.calls_to(FT + "::prune")]
+        o.check(bool(hs), "add_parent|handles", "add_parent resolves the ancestors of an already finalized block", b.span)
+        for c in hs:
+            o.check(bool(ps) and b.always_followed_by(c.bb, ps), "add_parent|prune-after-implicit", "handle_implicitly_finalized is always followed by prune()", c.span)
+    b = prog.body(FT + "::handle_finalized_block")
+    if b is None:
+        o.missing("FinalityTracker::handle_finalized_block")
+    else:
+        ps = b.calls_to(FT + "::prune")
+        o.check(len(ps) >= 1 and b.always_followed_by(0, [c.bb for c in ps]) and not any(D.extra_guards(prog, b, c.bb, []) for c in ps[:1]), "handle_finalized_block|prune-always",
+                "every direct finalization ends in prune()", b.span)
+
+
 def ob_discard_boundary(run, oid):
     prog = run.program("lib")
     o = run.ob(oid, "every discard boundary is the pruning watermark (first_unpruned_slot), never highest_finalized_slot",
@@ -376,6 +399,10 @@ def ob_prune_coverage(run, oid):
 
 
 def check(run):
+    # "a slot is finalized exactly when the node holds the certificates": received certificates of one kind must not be refused because of another kind
+    from . import C03 as _C03
+    _C03.ob_once(run, "O8.17")
+    ob_prune_after_decision(run, "O8.16")
     from . import detectors as _DS
     _DS.ob_structural_impls(run, "O8.15", ['consensus::pool::finality_tracker', 'types::', 'crypto::hash', 'crypto::merkle'], 'status and block-id comparisons decide what is (re)reported and what a watermark may pass')
     from . import detectors as _DL
@@ -561,6 +588,11 @@ def ob_implicit_sources(run, oid):
             src = b.operand_term(c.args[1])
             ok = ok and K.mentions_arg(b, src, 3 if fn == "handle_implicitly_finalized" else 2)
             o.check(ok, key + "|recorded-parent", "parent = parents[the block just (implicitly) finalized], source slot = that block's slot", c.span, {"parent": mir.show(par)[:120]})
+            if fn == "handle_finalized_block":
+                # ... and ALWAYS when that parent is known: a block finalized below the highest finalized slot resolves its ancestors too
+                # (the walk from a higher block stops at the first block that is already Finalized)
+                extra = D.extra_guards(prog, b, c.bb, [lambda a: a[0] in ("is_some", "variant") and K.mentions_field(a[1][0], "parents", "FinalityTracker")])
+                o.check(not extra, key + "|whenever-parent-known", "every direct finalization whose parent link is known resolves its ancestors (no further condition)", c.span, {"extra": G.atoms_show(extra)})
         elif fn == "add_parent":
             # the block whose parent link arrives must be the block recorded as finalized for its slot
             g = None
